@@ -235,28 +235,41 @@ class Execution:
     def run_invocation(self, event: dict) -> dict:  # noqa: C901, PLR0912, PLR0915
         sc = self.sc
         opts = sc.get("opts", {})
-        c2p_r, c2p_w = os.pipe()
-        p2c_r, p2c_w = os.pipe()
-        dump = tempfile.NamedTemporaryFile(prefix="dwdump", suffix=".txt", dir=opts.get("tmpdir", "/dev/shm"), delete=False)
-        dump.close()
-        pid = os.fork()
-        if pid == 0:
+        warm = bool(opts.get("warm")) and not callable(event)
+        wp = getattr(self, "_warm_proc", None)
+        if warm and wp is not None:
+            # warm sandbox: the process that served the previous invocation serves this one (module state, thread pools, caches and
+            # whatever threads the previous invocation left behind are still there); it is waiting for the reply to its inv_end
+            pid, c2p_r, p2c_w, reader, dump = wp["pid"], wp["c2p_r"], wp["p2c_w"], wp["reader"], wp["dump"]
+            self._warm_proc = None
+            self.rec("warm_reuse", pid=pid)
             try:
-                os.close(c2p_r)
-                os.close(p2c_w)
-                from dw.child import child_main
+                ipc.write_frame(p2c_w, (wp["mid"], {"next": {"event": event, "inv": self.inv, "jump": self.clock.jump}}))
+            except OSError:
+                pass
+        else:
+            c2p_r, c2p_w = os.pipe()
+            p2c_r, p2c_w = os.pipe()
+            dump = tempfile.NamedTemporaryFile(prefix="dwdump", suffix=".txt", dir=opts.get("tmpdir", "/dev/shm"), delete=False)
+            dump.close()
+            pid = os.fork()
+            if pid == 0:
+                try:
+                    os.close(c2p_r)
+                    os.close(p2c_w)
+                    from dw.child import child_main
 
-                child_main(c2p_w, p2c_r, sc, event, self.clock, self.inv, dump.name)
-            except BaseException:  # noqa: BLE001
-                import traceback
+                    child_main(c2p_w, p2c_r, sc, event, self.clock, self.inv, dump.name)
+                except BaseException:  # noqa: BLE001
+                    import traceback
 
-                traceback.print_exc()
-            finally:
-                os._exit(98)
-        os.close(c2p_w)
-        os.close(p2c_r)
-        os.set_blocking(c2p_r, False)
-        reader = ipc.FrameReader(c2p_r)
+                    traceback.print_exc()
+                finally:
+                    os._exit(98)
+            os.close(c2p_w)
+            os.close(p2c_r)
+            os.set_blocking(c2p_r, False)
+            reader = ipc.FrameReader(c2p_r)
         self._held: list[tuple[dict, int, object, dict]] = []  # (event, mid, response, rule)
         delayed: list[tuple[float, int, int, object]] = []
         dseq = 0
@@ -277,6 +290,8 @@ class Execution:
         idle_api = 0
         spin_limit = opts.get("spin_api", 200)
         msg_cap = opts.get("msg_cap", 30000)
+
+        warm_mid = [None]
 
         def respond(mid, resp):
             if mid:
@@ -467,6 +482,9 @@ class Execution:
                 outcome = pl
                 oc = pl.get("outcome") or {}
                 self.rec("returned", t=tname, outcome_kind=oc.get("kind"), status=(oc.get("value") or {}).get("Status") if isinstance(oc.get("value"), dict) else None)
+                if warm:
+                    warm_mid[0] = mid  # answered by the next invocation (or by the shutdown of the sandbox)
+                    return
                 respond(mid, True)
                 return
             respond(mid, True)
@@ -503,6 +521,8 @@ class Execution:
             if killed:
                 continue  # drain until EOF
             if outcome is not None:
+                if warm and warm_mid[0] is not None and not self._held and not delayed:
+                    break  # the sandbox stays up, frozen until the next invocation
                 continue
             idle = time.monotonic() - last_msg
             if self._held and not delayed and idle > idle_s:
@@ -514,22 +534,48 @@ class Execution:
                 verdict, stacks = self._diagnose_hang(pid, dump.name)
                 self.rec("hang", verdict=verdict, stacks=stacks, idle=idle)
                 kill()
-        try:
-            _, st = os.waitpid(pid, 0)
-            exit_status = st
-        except ChildProcessError:
-            pass
-        os.close(c2p_r)
-        os.close(p2c_w)
-        try:
-            os.unlink(dump.name)
-        except OSError:
-            pass
+        if warm and warm_mid[0] is not None and not killed:
+            self._warm_proc = {"pid": pid, "c2p_r": c2p_r, "p2c_w": p2c_w, "reader": reader, "dump": dump, "mid": warm_mid[0]}
+        else:
+            try:
+                _, st = os.waitpid(pid, 0)
+                exit_status = st
+            except ChildProcessError:
+                pass
+            os.close(c2p_r)
+            os.close(p2c_w)
+            try:
+                os.unlink(dump.name)
+            except OSError:
+                pass
         res = {"inv": self.inv, "msgs": msg_n, "api": api_in_inv, "killed": killed, "outcome": outcome, "exit": exit_status,
                "wall": time.monotonic() - inv_started}
         if outcome is None and not killed:
             res["died"] = True
         return res
+
+    def _shutdown_warm(self) -> None:
+        wp = getattr(self, "_warm_proc", None)
+        self._warm_proc = None
+        if wp is None:
+            return
+        try:
+            os.kill(wp["pid"], signal.SIGKILL)
+        except ProcessLookupError:
+            pass
+        try:
+            os.waitpid(wp["pid"], 0)
+        except ChildProcessError:
+            pass
+        for fd in (wp["c2p_r"], wp["p2c_w"]):
+            try:
+                os.close(fd)
+            except OSError:
+                pass
+        try:
+            os.unlink(wp["dump"].name)
+        except OSError:
+            pass
 
     def _hold_rule(self, ev: dict):
         for h in self.holds:
@@ -678,6 +724,7 @@ class Execution:
             break
         else:
             stop_reason = "max-invocations"
+        self._shutdown_warm()
         return {
             "scenario": sc,
             "trace": self.trace,
